@@ -57,6 +57,7 @@ func checkC20(c *Check) {
 	nrm := func(s string) string { return strings.ReplaceAll(s, "*", "") }
 	run := l.Func(pkg, "manager", "run")
 	defer c.cancelBeforeDrain("R2", run)
+	defer c.leaseClosedRouting("R4")
 	vr := l.Func(pkg, "manager", "validateRequests")
 	fa := l.Func(pkg, "manager", "fillAllRequests")
 	em := l.Func(pkg, "manager", "emitReceivedEvents")
@@ -462,4 +463,64 @@ func checkC20(c *Check) {
 			c.Fail("C20-R5 lost instances")
 		}
 	}
+}
+
+// leaseClosedRouting: the manifest service hands every lease-closed event of this provider to the deployment's manager
+// (which then answers later submissions with "no lease" and stops announcing). Between the event's type case and
+// manager.removeLease there are exactly two conditions: the lease's provider is this provider, and a manager exists.
+// Shared: C20-R4 (announce only while a lease is held), C09-R4 (a manifest is accepted only for a lease at this provider).
+func (c *Check) leaseClosedRouting(rule string) {
+	l := c.L
+	srun := l.Func("provider/manifest", "service", "run")
+	c.Analysed(fnName(srun))
+	var rm ssa.CallInstruction
+	for _, call := range callsIn(srun, false) {
+		if calleeMethod(call) == "removeLease" {
+			rm = call
+		}
+	}
+	if rm == nil {
+		c.Ob(rule, "manifest service: a lease-closed event reaches the manager", srun.Pos(), false, "no call of manager.removeLease in the service loop")
+		return
+	}
+	// the type case
+	var caseBlk *ssa.BasicBlock
+	eachInstr(rm.Parent(), func(i ssa.Instruction) {
+		if ta, ok := i.(*ssa.TypeAssert); ok && ta.CommaOk && strings.HasSuffix(ta.AssertedType.String(), "market/types.EventLeaseClosed") {
+			for _, r := range *ta.Referrers() {
+				if ex, isEx := r.(*ssa.Extract); isEx && ex.Index == 1 && ex.Referrers() != nil {
+					for _, rr := range *ex.Referrers() {
+						if ifi, isIf := rr.(*ssa.If); isIf {
+							caseBlk = ifi.Block().Succs[0]
+						}
+					}
+				}
+			}
+		}
+	})
+	if caseBlk == nil {
+		c.Ob(rule, "manifest service: a lease-closed event reaches the manager", rm.Pos(), false, "removeLease is not in the lease-closed case of the event switch")
+		return
+	}
+	okProv, okMgr := false, false
+	extra := ""
+	for _, a := range factsAt(rm.Block()) {
+		if a.If == nil || !(a.If.Block() == caseBlk || caseBlk.Dominates(a.If.Block())) {
+			continue
+		}
+		x, y := Sym(a.X), ""
+		if a.Y != nil {
+			y = Sym(a.Y)
+		}
+		switch {
+		case a.Op == "eq" && ((strings.HasSuffix(x, ".ID.Provider") && strings.Contains(y, "Provider(") && strings.Contains(y, "Address(")) || (strings.HasSuffix(y, ".ID.Provider") && strings.Contains(x, "Provider(") && strings.Contains(x, "Address("))):
+			okProv = true
+		case a.Op == "neq" && a.Y != nil && isNilConst(a.Y) && strings.Contains(x, "managers["):
+			okMgr = true
+		default:
+			extra += a.Op + " " + short(x) + " " + short(y) + "; "
+		}
+	}
+	c.Ob(rule, "manifest service: lease-closed events are filtered by the lease's provider being this provider", rm.Pos(), okProv, "the event is not compared with this provider's address: closed leases of this provider are ignored (or foreign ones acted on)")
+	c.Ob(rule, "manifest service: every lease-closed event of this provider with a manager reaches manager.removeLease", rm.Pos(), okMgr && extra == "", "removeLease is skipped under an extra condition ("+extra+"): the manager keeps a closed lease and goes on accepting and announcing manifests for it")
 }
